@@ -23,7 +23,9 @@ the agent-indexed fluent name space).  Read it in five minutes:
   undefined, and the fired effects are consistent.  (Multi-agent problems have no state invariants;
   bounded types are not checked: the removers never touch values.)
 
-Effects are ground and quantifier-free (`forall_ = []`): the fragment of the C37 check.
+`successor` takes ground, forall-free effects (`forall_ = []`); a FORALL effect stands for its instances
+over ALL objects of its variables' types, as in the single-agent specification: `successorIn O` expands
+every effect with `Sim.expandEffect O` (the model of `Effect.expand_effect`) first.
 -/
 namespace UPVerif.MASpec
 open UPVerif UPVerif.Sim UPVerif.Spec UPVerif.MA
@@ -112,6 +114,11 @@ def successor (V : View) (g : GState) (pre : List Expr) (E : List Effect) : Opti
     | none => none
     | some F => if Cons g F then some (succGet g F) else none
   else none
+
+/-- successor for actions with forall effects: every effect is replaced by its instances over the objects
+    of `O` (an effect without quantified variables is its own single instance) -/
+def successorIn (O : Problem) (V : View) (g : GState) (pre : List Expr) (E : List Effect) : Option GState :=
+  successor V g pre (E.flatMap (Sim.expandEffect O))
 
 /-- the shared goals are read in the global name space (no agent owns anything there) -/
 def goalView : View := { agent := "", own := [] }
